@@ -34,6 +34,13 @@ def run(tier, seed):
             rep.violation("trace_%s" % t["id"], {"property": PROP, "why": "VM trace rejected by KotoVm.tla at event %d: %s" % (v["at"], v["why"]),
                                                  "source": [j["src"] for j in jobs if j["id"] == t["id"]][0],
                                                  "events_before": t["events"][max(0, v["at"] - 6): v["at"]]})
+    # design level: the operational model of vm.rs (MC_KotoVm.tla) against the same rules, and the bugs it must reject
+    import mc_kotovm
+    mc = mc_kotovm.run(tier, bugs=("stale_catch", "builders", "reg_leak", "reg_growth"), liveness=False)
+    if "design_rejected" in mc:
+        rep.violation("design_model", {"property": PROP, "why": "MC_KotoVm.tla: %s" % (mc["design_rejected"],), "tlc": mc.get("tlc")})
+    rep.coverage["design_model"] = {k: v for k, v in mc.items() if k != "tlc"}
+    rep.coverage["states"] += mc.get("states", 0)
     rep.coverage["vm_traces_validated"] = len(traces)
     rep.coverage["hook_events_validated"] = sum(len(t["events"]) for t in traces)
     rep.coverage["states"] += tst["states"]
